@@ -24,12 +24,13 @@ The null-model part of both functions is random and outside the property:
 """
 
 import itertools
+import numbers
 import random
 from collections import Counter
 
 from hypothesis import strategies as st
 
-from ..engine import Clause, Violation, require
+from ..engine import Clause, require
 
 ASSUMPTIONS = [
     "runs_config_model=0 only: the configuration-model samples and norm_delta are random and "
@@ -188,7 +189,7 @@ def _by_class(observed, order, what):
         require(isinstance(ent, (tuple, list)) and len(ent) == 2,
                 lambda: "%s: entry %r is not a (pattern, count) pair" % (what, ent), key="shape")
         pat, cnt = ent
-        require(isinstance(cnt, int) and not isinstance(cnt, bool) and cnt >= 0,
+        require(isinstance(cnt, numbers.Integral) and not isinstance(cnt, bool) and cnt >= 0,
                 lambda: "%s: count of pattern %r is %r, expected a non-negative int"
                         % (what, pat, cnt), key="count-type")
         c = _canon_undirected(pat)
@@ -511,7 +512,7 @@ def _dobserved(h, order, what):
         require(isinstance(ent, (tuple, list)) and len(ent) == 2,
                 lambda: "%s: entry %r is not a (pattern, count) pair" % (what, ent), key="shape")
         pat, cnt = ent
-        require(isinstance(cnt, int) and not isinstance(cnt, bool) and cnt >= 1,
+        require(isinstance(cnt, numbers.Integral) and not isinstance(cnt, bool) and cnt >= 1,
                 lambda: "%s: count of pattern %r is %r, expected a positive int" % (what, pat, cnt),
                 key="count-type")
         key = tuple((tuple(s), tuple(t)) for s, t in pat)
@@ -629,15 +630,15 @@ _RULE = "at least 3 distinct isomorphism classes have a non-zero count in the ex
 CLAUSES = [
     Clause("order3_counts", _counts_strategy(3), check_counts, quick=200, thorough=1500,
            shards_quick=2, rule=_RULE),
-    Clause("order4_counts", _counts_strategy(4), check_counts, quick=20, thorough=400,
+    Clause("order4_counts", _counts_strategy(4), check_counts, quick=20, thorough=250,
            shards_quick=4, rule=_RULE),
-    Clause("classes_bijection", _bijection_cases, check_bijection, quick=24, thorough=60,
+    Clause("classes_bijection", _bijection_cases, check_bijection, quick=24, thorough=30,
            rule="every case (the class table is regenerated by every call; hypergraphs with 0..12 "
                 "hyperedges, both orders)"),
-    Clause("relabel_invariance", _relabel_cases, check_relabel, quick=40, thorough=400,
+    Clause("relabel_invariance", _relabel_cases, check_relabel, quick=40, thorough=250,
            shards_quick=4,
            rule=_RULE + " and the drawn label permutation moves at least one label"),
-    Clause("large_edges_ignored", _large_cases, check_large, quick=40, thorough=400,
+    Clause("large_edges_ignored", _large_cases, check_large, quick=40, thorough=300,
            shards_quick=3,
            rule="at least 2 classes with non-zero count and at least one hyperedge larger than the "
                 "order added"),
